@@ -81,6 +81,8 @@ class Walker(object):
         if sock_open and st != 4 and not r.fin_pending and not s.peer_reset:
             choices += [('send', 5)]
             choices += [('fin', 1), ('reset', 0.3)]
+            if not s.write_dead:
+                choices += [('deaf', 0.25)]
         if r.transit and s is not None and not s.closed:
             choices += [('arrive', 6)]
         # user primitives that are legal in the state the user sees
@@ -104,6 +106,8 @@ class Walker(object):
             r.peer_fin()
         elif name == 'reset':
             r.peer_reset()
+        elif name == 'deaf':
+            r.peer_deaf()
         elif name == 'user':
             k = rng.choice(LEGAL_USER[st])
             if k == 'GEN':
